@@ -393,11 +393,19 @@ Definition queue_ackmsg (s : state) (qn : string) (u : N) : state :=
 
 (* Queue.Requeue *)
 (* msgPStorage.Update: a persistent message of a durable queue is written back (with its new delivery count) - also when
-   a purge had removed its key while the message was out with a consumer.  Touches the store only. *)
+   a purge had removed its key while the message was out with a consumer.  While the message's add is still pending the
+   update is pending too and the add carries it (a delete of the key before the tick cancels both).  Touches the store only. *)
 Definition store_writeback (s : state) (qn : string) (u : N) (dur : bool) : state :=
   let pers := match get_msg s u with Some m => m_pers m | None => false end in
   if dur && pers && negb (existsb (fun k => (fst k =? u) && seqb (snd k) qn) (st_db s))
+         && negb (existsb (fun k => (fst k =? u) && seqb (snd k) qn) (st_add s))
   then s <| st_db ::= fun l => l ++ [(u, qn)] |> else s.
+
+(* msgPStorage.PurgeQueue: the flushed keys of the queue are deleted, and what still waits for the next tick is purged
+   as well - a pending add is cancelled by a delete of the same key (the tick then confirms it without writing it) *)
+Definition store_purge (s : state) (qn : string) : state :=
+  s <| st_db ::= filter (fun k => negb (seqb (snd k) qn)) |>
+    <| st_del ::= fun l => l ++ filter (fun k => seqb (snd k) qn) (st_add s) |>.
 
 Definition queue_requeue (s : state) (qn : string) (u : N) : state :=
   match get_queue s qn with
@@ -583,8 +591,7 @@ Definition vhost_delete_queue (delete_clears_active_first : bool) (s : state) (q
                                                let '(s', e) := consumer_cancel s x in (s', evs ++ e))
                                  (q_consumers qu) (s, []) in
       let len := q_len qu in
-      let s := if q_durable qu
-               then s <| st_db ::= filter (fun k => negb (seqb (snd k) qn)) |> else s in
+      let s := if q_durable qu then store_purge s qn else s in
       let s := s <| srv_total ::= fun z => (z - len)%Z |> <| srv_ready ::= fun z => (z - len)%Z |> in
       let s := s <| exchanges ::= map (fun kv => (fst kv, remove_queue_bindings (snd kv) qn)) |> in
       let s := s <| queues := adel seqb qn (queues s) |> in
@@ -961,7 +968,7 @@ Definition handle_method (cfg : config) (fx : fixes) (s : state) (c h : N) (m : 
     | Some qu =>
       if locked qu c then refuse s (ChanErr ResourceLocked 50 30) else
       let len := q_len qu in
-      let s := if q_durable qu then s <| st_db ::= filter (fun k => negb (seqb (snd k) q)) |> else s in
+      let s := if q_durable qu then store_purge s q else s in
       let s := s <| srv_total ::= fun z => (z - len)%Z |> <| srv_ready ::= fun z => (z - len)%Z |> in
       let s := set_queue s q (qu <| q_ready := [] |> <| q_len := 0%Z |> <| q_mtotal ::= fun z => (z - len)%Z |> <| q_mready ::= fun z => (z - len)%Z |>) in
       ok s (if nowait then [] else out1 c h (SQPurgeOk (Z.to_N len mod two32)))
